@@ -93,31 +93,63 @@ def accessors(facts, prefix, max_nodes=14):
 
 def let_substitutions(root, deep=False):
     """immutable locals bound exactly once in the whole body by `let x = <call|op|field|lit expr>`
-    (deep: also `let x = <expr>.await` and `let x = <expr>?`, which desc() renders as `await <expr>` / `<expr>?`)"""
+    (deep: also `let x = <expr>.await` and `let x = <expr>?`, which desc() renders as `await <expr>` / `<expr>?`).
+    Keys are names (only for names bound once in the body) and, where the driver recorded binding ids, `#<id>` for every
+    immutable `let` binding - so a shadowing `let x = f(x)` is read through as well. Deep mode also reads through an
+    irrefutable struct / tuple destructuring (`let Self { a, b } = self` binds a = self.a)."""
     from . import thir as _t
     counts = {}
     inits = {}
+    byid = {}
 
     def count_pat(p):
         for n in _t.walk(p):
             if n.get("k") == "bind":
                 counts[n["n"]] = counts.get(n["n"], 0) + 1
+
+    def ok_init(init):
+        return isinstance(init, dict) and (init.get("k") in ("call", "bin", "logic", "un", "field", "lit") or matches_as_eq(init) is not None
+                                           or (deep and init.get("k") == "match" and (init.get("src") == "AwaitDesugar" or str(init.get("src", "")).startswith("TryDesugar"))))
+
+    def plain(p):
+        return isinstance(p, dict) and p.get("k") == "bind" and "sub" not in p and p.get("mode") == "BindingMode(No, Not)"
+
+    def destructure(p, init):
+        """irrefutable struct / tuple patterns: each plainly bound field stands for <init>.<field>"""
+        if not isinstance(p, dict) or not isinstance(init, dict):
+            return
+        if p.get("k") == "leaf":
+            pi = _t.peel(init)
+            for fname, sp in p.get("sub", []):
+                if isinstance(pi, dict) and pi.get("k") == "tuple" and isinstance(fname, int) and fname < len(pi["f"]):
+                    sub_init = pi["f"][fname]
+                else:
+                    sub_init = {"k": "field", "n": fname, "e": init}
+                if plain(sp) and "id" in sp:
+                    byid["#%d" % sp["id"]] = sub_init
+                elif isinstance(sp, dict) and sp.get("k") == "leaf":
+                    destructure(sp, sub_init)
     for n in _t.walk(root):
         k = n.get("k")
         if k == "let":
             count_pat(n["p"])
             p = n["p"]
-            if p.get("k") == "bind" and "sub" not in p and p.get("mode") == "BindingMode(No, Not)" and isinstance(n.get("i"), dict):
+            if plain(p) and isinstance(n.get("i"), dict):
                 init = _t.peel(n["i"])
-                if isinstance(init, dict) and (init.get("k") in ("call", "bin", "logic", "un", "field", "lit") or matches_as_eq(init) is not None
-                                               or (deep and init.get("k") == "match" and (init.get("src") == "AwaitDesugar" or str(init.get("src", "")).startswith("TryDesugar")))):
+                if ok_init(init):
                     inits[p["n"]] = n["i"]
+                    if "id" in p:
+                        byid["#%d" % p["id"]] = n["i"]
+            elif deep and isinstance(n.get("i"), dict) and n.get("else") is None:
+                destructure(p, n["i"])
         elif k == "match":
             for a in n["arms"]:
                 count_pat(a["p"])
         elif k == "letx":
             count_pat(n["p"])
-    return {k: v for k, v in inits.items() if counts.get(k, 0) == 1}
+    out = {k: v for k, v in inits.items() if counts.get(k, 0) == 1}
+    out.update(byid)
+    return out
 
 
 def matches_as_eq(e):
@@ -151,6 +183,13 @@ def desc(e):
         return e["d"]
     if k == "var":
         n = e["n"]
+        ik = "#%d" % e["id"] if "id" in e else None
+        if ik is not None and ik in SUBST and ik not in _subst_guard:
+            _subst_guard.add(ik)
+            try:
+                return desc(SUBST[ik])
+            finally:
+                _subst_guard.discard(ik)
         if n in SUBST and n not in _subst_guard:
             _subst_guard.add(n)
             try:
@@ -450,6 +489,15 @@ class Enum:
             return self.seq(items)
         if k in ("tuple", "array"):
             return self.seq(e["f"])
+        if k == "block" and e.get("fnbound") and not getattr(self, "_in_fnbound", None) == id(e):
+            # the body of a spliced helper (wxlint/normal.py): its `return` yields the value of the call it replaces
+            prev = getattr(self, "_in_fnbound", None)
+            self._in_fnbound = id(e)
+            try:
+                inner = self.paths(e)
+            finally:
+                self._in_fnbound = prev
+            return [P(q.ev, "val" if q.out == "ret" else q.out, q.val) for q in inner]
         if k == "block":
             items = []
             res = [P()]
